@@ -71,13 +71,13 @@ theorem Ext.krel : KRel (Ext (σ := σ)) where
   newEv _ _ _ := Ext.of_frame rfl rfl rfl
   newLabelled _ _ _ := Ext.of_frame rfl rfl rfl
   newReq _ _ _ _ _ := Ext.of_frame rfl rfl rfl
-  schedule s e p d hd := Ext.schedule s e p d hd
+  schedule s e p d hd _ := Ext.schedule s e p d hd
   setOut _ _ _ := Ext.of_frame rfl rfl rfl
   defuse _ _ := Ext.of_frame rfl rfl rfl
   bumpCount _ _ := Ext.of_frame rfl rfl rfl
   setUsage _ _ := Ext.of_frame rfl rfl rfl
   eraseCb _ _ _ := Ext.of_frame rfl rfl rfl
-  addCb _ _ _ := Ext.of_frame rfl rfl rfl
+  addCb _ _ _ _ := Ext.of_frame rfl rfl rfl
   eraseUser _ _ _ := Ext.of_frame rfl rfl rfl
   addUser _ _ _ _ _ := Ext.of_frame rfl rfl rfl
   addLevel _ _ _ _ _ := Ext.of_frame rfl rfl rfl
